@@ -44,6 +44,9 @@ open Aergo.Json
 inductive Rej
   | format | chain | size | hash | amount | price | account | recipient | type_ | payload | args
   | public_ | sig | nonce | balance | state | unsupported
+  | fee        -- fee.TxMaxFee: "the minimum required amount of gas"
+  | fd         -- the contract refuses the delegated fee (typed reply of the chain service carrying an error)
+  | internal   -- no reply from the chain service within the timeout
 deriving DecidableEq, Repr
 
 /-- Panic-capable sites carried by the model as explicit traps. `siteKeys` gives the source
@@ -87,6 +90,14 @@ inductive Site
   | xCtx0           -- ExecuteEnterpriseTx  context.Args[0]
   | xEnable1        -- ExecuteEnterpriseTx  context.Call.Args[1]
   | xAny0           -- ExecuteEnterpriseTx  context.ArgsAny[0]
+  -- contract/system/voteresult.go (Sync, threshold), types/vote.go (VoteList.Less)
+  | rSyncTop        -- Sync       resultList.Votes[0]
+  | rThreshDiv      -- threshold  new(big.Int).Div(total, unit)            (division)
+  | tLessSlice      -- Less       vl.Votes[j].Candidate[7:]
+  -- fee/gas.go
+  | fCalcGas        -- CalcGas    new(big.Int).Div(fee, gasPrice)          (division)
+  -- mempool/mempool.go
+  | pFdRsp          -- validateTx rsp.(message.CheckFeeDelegationRsp)      (type assertion on an actor reply)
 deriving DecidableEq, Repr
 
 inductive Outcome (α : Type) where
@@ -135,6 +146,14 @@ def idx (s : Site) (xs : List α) (i : Nat) : Outcome α :=
 /-- `a[i:]` -/
 def sliceFrom (s : Site) (xs : List α) (i : Nat) : Outcome (List α) :=
   if i ≤ xs.length then .ok (xs.drop i) else .panic s
+
+/-- `new(big.Int).Div(a, b)` on non-negative operands / `a / b` on unsigned integers: panics for `b = 0`. -/
+def divNat (s : Site) (a b : Nat) : Outcome Nat :=
+  if b == 0 then .panic s else .ok (a / b)
+
+/-- `new(big.Int).Div(a, b)` (Euclidean division): panics for `b = 0`. -/
+def divInt (s : Site) (a b : Int) : Outcome Int :=
+  if b == 0 then .panic s else .ok (Int.ediv a b)
 
 /-- `x.(string)` -/
 def asStr (s : Site) : JVal → Outcome Str
@@ -214,6 +233,7 @@ structure Tx where
   type : Int
   payload : List Nat
   nonce : Nat
+  gasLimit : Nat := 0          -- tx.Body.GasLimit
 deriving Repr
 
 /-- Facts about a string argument `Args[i]`, computed by the library decoders. -/
@@ -231,6 +251,19 @@ structure Conf where
   values : List Str
 deriving Repr
 
+/-- Reply of the chain service to the pool's `CheckFeeDelegation` request. `untyped`: a value that is not a
+`message.CheckFeeDelegationRsp` (what the hub's future carries when no chain service is registered). -/
+inductive FdReply | ok | refused | timeout | untyped
+deriving DecidableEq, Repr
+
+/-- One entry of a parameter-vote tally (`VoteResult.rmap`): the candidate string, its amount, and whether the
+sender's old vote record names it. -/
+structure TallyRow where
+  cand : List Nat
+  amt : Int
+  inOld : Bool := false
+deriving Repr, DecidableEq
+
 structure Env where
   tx : Tx
   -- node configuration
@@ -247,13 +280,13 @@ structure Env where
   staked : Nat                 -- staking amount of the sender
   stakeRec : Bool              -- staking record has a non-nil Amount
   stakedWhen : Nat
-  stakingMin : Nat
+  stakingMin : Int             -- system.GetStakingMinimum(): a voted parameter; negative values can be voted in
   voteRec : List Bool          -- old vote record (Amount ≠ nil) per issue: voteBP, BPCOUNT, STAKINGMIN, GASPRICE, NAMEPRICE
   oldVoteOk : List Bool        -- every candidate of that old record has an entry in the issue's tally
   voteAmt : List Nat           -- amount of that old record
   candCap : Nat                -- cap() of the candidate buffer newVoteCmd builds with append (Go runtime fact)
   -- aergo.name
-  namePrice : Nat
+  namePrice : Int              -- system.GetNamePrice()
   nameOwned : Bool             -- getOwner(scs, Args[0]) ≠ nil
   acctEqName : Bool            -- bytes.Equal(tx.Account, []byte(Args[0]))
   acctIsOwner : Bool           -- bytes.Equal(tx.Account, getOwner(scs, Args[0]))
@@ -270,6 +303,18 @@ structure Env where
   ccIdOk : Bool                -- strconv.ParseUint(id, 16, 64) == nil
   -- string arguments
   argF : List ArgF
+  -- fees (every transaction type)
+  zeroFee : Bool := true       -- fee.IsZeroFee()
+  gasPrice : Int := 50000000000 -- system.GetGasPrice() (pool) = bs.GasPrice (block): a voted parameter
+  -- the pool's checks of the other transaction types
+  rcptResolved : Bool := false -- name.GetAddress(scs, recipient) ≠ nil for a recipient that is neither 33 bytes nor special
+  rcptBalance : Nat := 0       -- balance of the (resolved) recipient (fee delegation: it pays)
+  blockMulticall : Bool := false
+  blockDeploy : Bool := false
+  fdReply : FdReply := .ok     -- what the chain service answers to message.CheckFeeDelegation
+  -- parameter votes: the tally of the issue(s) the transaction touches, and the staking total
+  tally : List (List TallyRow) := []   -- per issue (0 = voteBP: not used), in the order `buildVoteList` ranges over the map
+  stakingTotal : Nat := 0
 deriving Repr
 
 def Env.arg (e : Env) (i : Nat) : ArgF := e.argF.getD i {}
@@ -409,9 +454,59 @@ def senderGov (e : Env) : Outcome Unit :=
   else if e.tx.recipient == aergoName || e.tx.recipient == aergoEnterprise then .ok ()
   else .reject .recipient
 
+/-! #### fee/ (gas.go, fee.go, payload.go): what `ValidateMaxFee` computes -/
+
+def payloadMaxSize : Nat := 200 * 1024
+def baseTxAergo : Nat := 2000000000000000
+def aerPerByte : Nat := 5000000000000
+
+/-- `paymentDataSize`, capped by the callers at `payloadMaxSize`. -/
+def paidBytes (payloadLen : Nat) : Nat := min (payloadLen - 200) payloadMaxSize
+
+/-- `fee.TxGas` -/
+def txGas (e : Env) : Nat := if e.zeroFee then 0 else 100000 + paidBytes e.tx.payload.length * 5
+
+/-- `fee.GasEnabled` -/
+def gasEnabled (e : Env) : Bool := !e.zeroFee && e.forkVersion ≥ 2
+
+/-- `fee.MaxPayloadFee` (fee enabled) -/
+def maxPayloadFee (payloadLen : Nat) : Nat :=
+  if payloadLen == 0 then baseTxAergo
+  else baseTxAergo + aerPerByte * paidBytes payloadLen + aerPerByte * (payloadMaxSize - 200)
+
+/-- `fee.MaxGasLimit(balance, gasPrice)`: `CalcGas` = `new(big.Int).Div(balance, gasPrice)`, `math.MaxUint64`
+unless the quotient is a uint64.  THE division by the voted gas price. -/
+def maxGasLimit (balance gasPrice : Int) : Outcome Nat := do
+  let q ← divInt .fCalcGas balance gasPrice
+  pure (if 0 ≤ q && q < 18446744073709551616 then q.toNat else 18446744073709551615)
+
+/-- `fee.TxMaxFee`: `none` = the "minimum required amount of gas" error. -/
+def txMaxFee (e : Env) (balance : Int) : Outcome (Option Int) :=
+  if e.zeroFee then .ok (some 0)
+  else if e.forkVersion < 2 then .ok (some (maxPayloadFee e.tx.payload.length))
+  else do
+    let gl ← if e.tx.gasLimit == 0 then maxGasLimit balance e.gasPrice else pure e.tx.gasLimit
+    if txGas e > gl then pure none else pure (some (e.gasPrice * gl))
+
+/-- `(*transaction).ValidateMaxFee(balance, gasPrice, version)` -/
+def validateMaxFee (e : Env) (balance : Int) : Outcome Unit := do
+  match ← txMaxFee e balance with
+  | none => .reject .fee
+  | some f => rejectIf (f > balance) .balance
+
+/-- `ValidateWithSenderState`, the switch on the type. -/
+def senderType (e : Env) : Outcome Unit :=
+  let t := e.tx.type
+  if t == 0 || t == 2 || t == 4 || t == 5 || t == 6 then do   -- NORMAL, REDEPLOY, TRANSFER, CALL, DEPLOY
+    rejectIf (e.balance < e.tx.amount) .balance
+    validateMaxFee e ((e.balance - e.tx.amount : Nat) : Int)
+  else if t == 1 then senderGov e
+  else if t == 3 then rejectIf (e.tx.amount > e.balance) .balance   -- FEEDELEGATION
+  else .ok ()                                                       -- MULTICALL: no case
+
 def senderState (e : Env) (strict : Bool) : Outcome Unit := do
   rejectIf (e.stNonce + 1 > e.tx.nonce) .nonce
-  senderGov e
+  senderType e
   rejectIf (strict && e.stNonce + 1 < e.tx.nonce) .nonce
 
 /-! ### contract/system -/
@@ -452,7 +547,7 @@ def sysValidate (u : List Site) (e : Env) : Outcome SysCtx :=
     | .stake => do
       rejectIf (e.balance < e.tx.amount) .balance
       rejectIf (e.stakeRec && e.stakedWhen + stakingDelay > e.blockNo) .state       -- ErrLessTimeHasPassed
-      rejectIf (e.stakingMin > e.staked + e.tx.amount) .state                       -- ErrTooSmallAmount
+      rejectIf (e.stakingMin > ((e.staked + e.tx.amount : Nat) : Int)) .state       -- ErrTooSmallAmount
       pure ⟨ci, .stake, 0, false⟩
     | .voteBP => do
       validateForVote e 0
@@ -461,7 +556,7 @@ def sysValidate (u : List Site) (e : Env) : Outcome SysCtx :=
       rejectIf (e.staked == 0) .state
       rejectIf (e.staked < e.tx.amount) .state
       rejectIf (e.stakedWhen + stakingDelay > e.blockNo) .state
-      rejectIf (e.staked - e.tx.amount != 0 && e.stakingMin > e.staked - e.tx.amount) .state
+      rejectIf (e.staked - e.tx.amount != 0 && e.stakingMin > ((e.staked - e.tx.amount : Nat) : Int)) .state
       pure ⟨ci, .unstake, 0, false⟩
     | .voteDAO => do
       rejectIf (e.forkVersion < 2) .state
@@ -503,6 +598,102 @@ def subOld (e : Env) (i : Nat) (cond : Bool) : Outcome Unit :=
 def addNew (e : Env) (proposal : Bool) (args : List JVal) : Outcome Unit :=
   if !proposal && !chunksFit (candTotal e args) e.candCap then .panic .rAddSlice else .ok ()
 
+/-! #### Parameter votes: the tally, its sort, the threshold (`voteresult.go`, `types/vote.go`) -/
+
+/-- Issue's tally as the sender's facts give it. -/
+def Env.rows (e : Env) (i : Nat) : List TallyRow := e.tally.getD i []
+
+/-- `SubVote` on a parameter tally: every candidate of the old record loses the old amount. -/
+def subRows (rows : List TallyRow) (oldAmt : Nat) : List TallyRow :=
+  rows.map fun r => if r.inOld then { r with amt := r.amt - oldAmt } else r
+
+/-- `AddVote` of one candidate: its entry (created with 0 when absent) gains the amount. -/
+def addRow (rows : List TallyRow) (c : List Nat) (amt : Nat) : List TallyRow :=
+  if rows.any (·.cand == c) then rows.map fun r => if r.cand == c then { r with amt := r.amt + amt } else r
+  else rows ++ [{ cand := c, amt := amt }]
+
+def addRows (rows : List TallyRow) (cs : List (List Nat)) (amt : Nat) : List TallyRow :=
+  cs.foldl (fun rs c => addRow rs c amt) rows
+
+/-- An element of `buildVoteList`: candidate bytes and `Amount = v.Bytes()` (the absolute value). -/
+structure VoteEnt where
+  cand : List Nat
+  amt : Nat
+deriving Repr, DecidableEq
+
+def buildVoteList (rows : List TallyRow) : List VoteEnt := rows.map fun r => ⟨r.cand, r.amt.natAbs⟩
+
+/-- `new(big.Int).SetBytes(b)` -/
+def bigOfBytes (b : List Nat) : Nat := b.foldl (fun a x => a * 256 + x) 0
+
+/-- `bytes.Compare` as an integer sign. -/
+def bytesCmp : List Nat → List Nat → Int
+  | [], [] => 0
+  | [], _ :: _ => -1
+  | _ :: _, [] => 1
+  | x :: xs, y :: ys => if x < y then -1 else if x > y then 1 else bytesCmp xs ys
+
+def natCmp (a b : Nat) : Int := if a < b then -1 else if a > b then 1 else 0
+
+/-- `types.VoteList.Less(i, j)` on the two entries.  Since fix 3f9132cd the peer-id branch (`Candidate[7:]` of BOTH
+entries) is taken only when the j-th candidate has at least 7 bytes; before (site `tLessSlice` unguarded) a 39-byte
+candidate next to a shorter one made the second slice expression panic.  The slices keep their panic semantics. -/
+def voteLess (u : List Site) (a b : VoteEnt) : Outcome Bool :=
+  if a.amt < b.amt then .ok true
+  else if a.amt == b.amt then do
+    let c ← if a.cand.length == 39 && (b.cand.length ≥ 7 || u.contains .tLessSlice) then do
+        let x ← sliceFrom .tLessSlice a.cand 7
+        let y ← sliceFrom .tLessSlice b.cand 7
+        pure (natCmp (bigOfBytes x) (bigOfBytes y))
+      else pure (natCmp (bigOfBytes a.cand) (bigOfBytes b.cand))
+    let c := if c == 0 then bytesCmp a.cand b.cand else c
+    pure (c > 0)
+  else .ok false
+
+/-- Insert into a list sorted by `sort.Reverse(voteList)` (descending), comparing as insertion sort does. -/
+def insertDesc (u : List Site) (x : VoteEnt) : List VoteEnt → Outcome (List VoteEnt)
+  | [] => .ok [x]
+  | y :: r => do
+    -- Reverse.Less(x, y) = Less(y, x)
+    if ← voteLess u y x then pure (x :: y :: r)
+    else do
+      let r' ← insertDesc u x r
+      pure (y :: r')
+
+/-- `sort.Sort(sort.Reverse(voteList))` (as an insertion sort: which pairs the library compares depends on its
+algorithm and on the map iteration order; the totality theorem is for every list and every pair). -/
+def sortDesc (u : List Site) : List VoteEnt → Outcome (List VoteEnt)
+  | [] => .ok []
+  | x :: r => do
+    let r' ← sortDesc u r
+    insertDesc u x r'
+
+/-- `VoteResult.threshold(power)`: since fix f9db0000 a tally below 100 aer (`unit = 0`) returns false before
+the division; before (site `rThreshDiv` unguarded) `Div(total, 0)` panicked. -/
+def threshold (u : List Site) (power total : Nat) : Outcome Bool :=
+  if power == 0 then .ok false
+  else
+    let unit := power / 100
+    if unit == 0 && !u.contains .rThreshDiv then .ok false
+    else do
+      let q ← divNat .rThreshDiv total unit
+      pure (q ≤ 150)
+
+/-- `VoteResult.Sync` of a parameter tally after `sub(old)` / `add(new)`: sort, `Votes[0]`, threshold. -/
+def syncDao (u : List Site) (e : Env) (issue : Nat) (hadOld : Bool) (newCands : List (List Nat)) (newAmt : Nat) : Outcome Unit := do
+  let rows := if hadOld then subRows (e.rows issue) (e.voteAmt.getD issue 0) else e.rows issue
+  let rows := addRows rows newCands newAmt
+  let sorted ← sortDesc u (buildVoteList rows)
+  let top ← idx .rSyncTop sorted 0
+  let _ ← threshold u top.amt e.stakingTotal
+  pure ()
+
+/-- The candidates a parameter vote names: `json.Marshal(Args[1:])` read back by `AddVote` (strings as UTF-8 bytes). -/
+def daoCands (args : List JVal) : List (List Nat) := (args.drop 1).filterMap fun v => (str? v).map encodeUtf8
+
+/-- The candidates of the sender's old record on a parameter issue, as the tally flags them. -/
+def oldCands (e : Env) (issue : Nat) : List (List Nat) := ((e.rows issue).filter (·.inOld)).map (·.cand)
+
 /-- Argument handling of `newVoteCmd`. -/
 def voteArgs (c : SysCtx) : Outcome Unit :=
   if c.proposal then do
@@ -513,38 +704,42 @@ def voteArgs (c : SysCtx) : Outcome Unit :=
   else asStrAll .vBpCand c.ci.args
 
 /-- `refreshAllVote` (unstaking): every old vote larger than the remaining stake is taken out of its
-tally (`cmd.sub(oldvote)`) and put back with the new amount; issues in catalog order. -/
-def refreshAllVote (e : Env) (newStaked : Nat) : List Nat → Outcome Unit
+tally (`cmd.sub(oldvote)`), put back with the new amount (`cmd.add`), and the tally is synced; issues in
+catalog order. -/
+def refreshAllVote (u : List Site) (e : Env) (newStaked : Nat) : List Nat → Outcome Unit
   | [] => .ok ()
   | i :: r => do
+    let touched := e.voteRec.getD i false && e.voteAmt.getD i 0 > newStaked
     subOld e i (e.voteAmt.getD i 0 > newStaked)
-    refreshAllVote e newStaked r
+    if touched && i != 0 then syncDao u e i true (oldCands e i) newStaked else pure ()
+    refreshAllVote u e newStaked r
 
 /-- `newSysCmd` + `cmd.run()` after a successful validation. -/
-def sysRun (e : Env) (c : SysCtx) : Outcome Unit :=
+def sysRun (u : List Site) (e : Env) (c : SysCtx) : Outcome Unit :=
   match c.op with
   | .stake => .ok ()
-  | .unstake => refreshAllVote e (e.staked - e.tx.amount) [0, 1, 2, 3, 4]
+  | .unstake => refreshAllVote u e (e.staked - e.tx.amount) [0, 1, 2, 3, 4]
   | .voteBP | .voteDAO => do
     voteArgs c
-    -- run(): updateVoteResult: sub(old vote), add(new vote)
+    -- run(): updateVoteResult: sub(old vote), add(new vote), Sync
     subOld e c.issue true
     addNew e c.proposal c.ci.args
+    if c.proposal then syncDao u e c.issue (e.voteRec.getD c.issue false) (daoCands c.ci.args) e.staked else pure ()
 
 /-- `system.ExecuteSystemTx` -/
 def sysExecute (u : List Site) (e : Env) : Outcome Unit := do
   let c ← sysValidate u e
-  sysRun e c
+  sysRun u e c
 
 /-! ### contract/name -/
 
 /-- `name.ValidateNameTx` -/
 def nameState (e : Env) (ci : CallInfo) : Outcome Unit :=
   if ci.name == str% "v1createName" then do
-    rejectIf (e.namePrice > e.tx.amount) .state
+    rejectIf (e.namePrice > (e.tx.amount : Int)) .state
     rejectIf e.nameOwned .state
   else if ci.name == str% "v1updateName" then do
-    rejectIf (e.namePrice > e.tx.amount) .state
+    rejectIf (e.namePrice > (e.tx.amount : Int)) .state
     rejectIf (!e.acctEqName && !e.acctIsOwner) .state
   else if ci.name == str% "v1setOwner" then
     rejectIf e.contractOwned .state
@@ -827,15 +1022,55 @@ def poolGov (u : List Site) (e : Env) : Outcome Unit :=
   else if e.tx.recipient == aergoEnterprise then void (entValidate u e)
   else .ok ()
 
-/-- Pool admission: `verifyTx` (Validate + signature), then `put`'s `validateTx`.  Only governance
-transactions (type 1) reach governance code; the pool's checks for the other types are not modelled. -/
+def specialAccounts : List Str := [aergoSystem, aergoName, aergoEnterprise, str% "aergo.vault"]
+
+/-- `mp.getAddress(recipient) != nil` for a non-nil recipient: 33 bytes and special names resolve to themselves,
+anything else is looked up in the name contract. -/
+def rcptAddrOk (e : Env) : Bool :=
+  e.tx.recipient.length == addressLength || specialAccounts.contains e.tx.recipient || e.rcptResolved
+
+/-- case NORMAL, TRANSFER, CALL (and REDEPLOY falling through): the recipient check (quirk transactions — a fixed
+list of historical hashes — are not modelled). -/
+def poolRecipient (e : Env) : Outcome Unit := do
+  let r := e.tx.recipient
+  let nameRcpt := !r.isEmpty && r.length ≤ nameLength          -- HasNameRecipient
+  rejectIf (!(nameRcpt || specialAccounts.contains r) && r.length != addressLength) .recipient
+  rejectIf (!rcptAddrOk e) .recipient
+
+/-- case FEEDELEGATION: recipient, its balance against the maximum fee, the chain service's verdict. -/
+def poolFeeDelegation (e : Env) : Outcome Unit := do
+  let r := e.tx.recipient
+  rejectIf r.isEmpty .recipient
+  rejectIf (r.length ≤ nameLength && !rcptAddrOk e) .recipient
+  validateMaxFee e e.rcptBalance
+  match e.fdReply with
+  | .timeout => .reject .internal
+  | .untyped => .panic .pFdRsp           -- rsp.(message.CheckFeeDelegationRsp)
+  | .refused => .reject .fd
+  | .ok => .ok ()
+
+/-- `mempool.validateTx`, the switch on the type for everything but governance. -/
+def poolOther (e : Env) : Outcome Unit :=
+  let t := e.tx.type
+  if t == 2 then do                    -- REDEPLOY
+    rejectIf e.isPublic .type_
+    rejectIf e.tx.recipient.isEmpty .recipient
+    poolRecipient e
+  else if t == 0 || t == 4 || t == 5 then poolRecipient e
+  else if t == 7 then rejectIf e.blockMulticall .type_
+  else if t == 6 then do
+    rejectIf (!e.tx.recipient.isEmpty) .recipient
+    rejectIf e.blockDeploy .type_
+  else if t == 3 then poolFeeDelegation e
+  else .ok ()
+
+/-- Pool admission: `verifyTx` (Validate + signature), then `put`'s `validateTx` (sender state, then the
+switch on the transaction type). -/
 def poolAdmit (u : List Site) (e : Env) : Outcome Unit := do
   typesValidate u e
   rejectIf (!e.tx.sigOk) .sig
-  if e.tx.type == 1 then do
-    senderState e false
-    poolGov u e
-  else .ok ()
+  senderState e false
+  if e.tx.type == 1 then poolGov u e else poolOther e
 
 /-- `executeGovernanceTx` -/
 def execGov (u : List Site) (e : Env) : Outcome Unit := do
@@ -845,13 +1080,18 @@ def execGov (u : List Site) (e : Env) : Outcome Unit := do
   else if e.tx.recipient == aergoEnterprise then entExecute u e
   else .reject .recipient
 
-/-- `executeTx`, up to the receipt; for the other types `contract.Execute` (the VM) is not modelled. -/
+/-- The other types after the sender-state check: `contract.Execute` (base fee, `fee.GasLimit`), the fee-delegation
+`ValidateMaxFee` on the recipient, the VM (not modelled: a scripted stub in the harness) and the receipt
+(`fee.ReceiptGasUsed`).  Their only partial operation outside the VM is the division by the block's gas price in
+`fee.CalcGas`, reached whenever gas is enabled; it is modelled as one division by that price. -/
+def execOther (e : Env) : Outcome Unit :=
+  if gasEnabled e then void (divInt .fCalcGas 0 e.gasPrice) else .ok ()
+
+/-- `executeTx`, up to the receipt. -/
 def execute (u : List Site) (e : Env) : Outcome Unit := do
   typesValidate u e
-  if e.tx.type == 1 then do
-    senderState e true
-    execGov u e
-  else .ok ()
+  senderState e true
+  if e.tx.type == 1 then execGov u e else execOther e
 
 /-! ### The site table (tie T) -/
 
